@@ -14,7 +14,7 @@ from exoverif.c18_child import run_session
 
 S = json.load(open(os.path.join(ROOT, "findings_demos", "C18_z3_unknown_session.json")))
 outs = []
-for i in range(6):
+for i in range(20):
     rec, p = run_session(0, S)
     outs.append(json.dumps(rec["steps"]))
     print(f"run {i}: symbol counter {Sym._unq_count}, z3 unknown verdicts {rec['z3_unknown']}, output #{sorted(set(outs)).index(outs[-1])}")
